@@ -5,6 +5,25 @@ use crate::{
     util::decimal::GreaterEqualZeroDecimal,
 };
 
+/// The all-affiliate share balance after one affiliate's share balance changes from
+/// `prev_share_balance` to `new_share_balance`.
+///
+/// Both delta_for_tx and AffiliatePortfolioSecurityStatuses derive the new total through
+/// this one function, so decimal rounding of long fractions (eg. after a 1.0-for-3.0
+/// split) cannot make them disagree. The other affiliates' total is taken first, so that
+/// a lone affiliate's total is always exactly its own balance.
+pub fn all_affiliate_share_balance_after(
+    prev_all_affiliate_share_balance: rust_decimal::Decimal,
+    prev_share_balance: rust_decimal::Decimal,
+    new_share_balance: rust_decimal::Decimal,
+) -> rust_decimal::Decimal {
+    if new_share_balance == prev_share_balance {
+        prev_all_affiliate_share_balance
+    } else {
+        (prev_all_affiliate_share_balance - prev_share_balance) + new_share_balance
+    }
+}
+
 /// Tracks the most recent PortfolioSecurityStatus for each Affiliate in
 /// the portfolio for a single security, as well as any aggregate
 /// information across all affiliates.
@@ -85,9 +104,11 @@ impl AffiliatePortfolioSecurityStatuses {
             Some(status) => status.share_balance,
             None => GreaterEqualZeroDecimal::zero(),
         };
-        let expected_all_share_bal = *v.share_balance
-            + *self.latest_all_affiliates_share_balance
-            - *last_share_balance;
+        let expected_all_share_bal = all_affiliate_share_balance_after(
+            *self.latest_all_affiliates_share_balance,
+            *last_share_balance,
+            *v.share_balance,
+        );
 
         assert_eq!(
             af.registered(),
